@@ -153,6 +153,18 @@ def run(ctx):
         nvar = len({const_str(du_of(fn).val_operand(t["args"][0])) for _, t in calls(fn, lambda c: c == "std::env::var") if t["args"]})
         if nvar >= 8 and nset == 0 and not calls(fn, lambda c: c == "std::vec::Vec::<T, A>::push") and fn.ret == "()":
             role.setdefault("env", fn)
+        if nvar < 8 and nset == 0 and fn.ret == "()":
+            # the same report driven by a constant table of the setting names (`NAMES.iter().filter_map(|n| env::var(n).ok()..)`)
+            from .c14 import items_mentioned
+            tabs = []
+            for item in items_mentioned(F, fn):
+                f_ = ((F.consts.get(item) or {}).get("v") or {}).get("fields") if isinstance((F.consts.get(item) or {}).get("v"), dict) else None
+                if isinstance(f_, dict) and len([x for x in f_.values() if isinstance(x, str) and x in names]) >= 8:
+                    tabs.append(item)
+            reads = any(callee_name(t_) == "std::env::var" for cn_, cf_ in F.fns.items() if cf_.kind == "Closure" and cn_.startswith(fn.def_ + "::{closure") for _, t_ in cf_.calls()) \
+                or bool(calls(fn, lambda c: c == "std::env::var"))
+            if tabs and reads and not calls(fn, lambda c: c == "std::vec::Vec::<T, A>::push"):
+                role.setdefault("env", fn)
         if nset == 1 and fn.nargs == 2:
             role["setter"] = fn
     for fn in fns:
@@ -257,8 +269,10 @@ def run(ctx):
             if callee_name(t) != "std::env::set_var" or len(t["args"]) < 2:
                 continue
             a0, a1 = ddu.val_operand(t["args"][0]), ddu.val_operand(t["args"][1])
-            same_elem = a0[0] == "place" and a1[0] == "place" and a0[1][0] == a1[1][0] and a0[1][1][:-1] == a1[1][1][:-1] \
-                and a0[1][1] and a1[1][1] and a0[1][1][-1][:2] == ("f", 0) and a1[1][1][-1][:2] == ("f", 1)
+            p0 = tuple(e for e in a0[1][1] if e != "*") if a0[0] in ("place", "ref") else ()
+            p1 = tuple(e for e in a1[1][1] if e != "*") if a1[0] in ("place", "ref") else ()
+            same_elem = a0[0] in ("place", "ref") and a1[0] == a0[0] and a0[1][0] == a1[1][0] and p0[:-1] == p1[:-1] \
+                and p0 and p1 and p0[-1][:2] == ("f", 0) and p1[-1][:2] == ("f", 1)
             guarded = False
             for e_, f_ in dg.facts():
                 if f_[0] == "variant" and f_[3] is False:
@@ -402,9 +416,26 @@ def run(ctx):
     if not matcher_closures:
         # the lookup written as an explicit loop inside _parse itself
         matcher_closures = [f for f in fns if f.def_.endswith("CommandLineArgument::_parse") and any("PartialEq" in (callee_name(t) or "") for _, t in f.calls())]
+    # the lookup may be spread over closures and private helpers of _parse (`for_each(|..| find_by_flag(..))`, `find(|a| a.is_spelled(p))`):
+    # the family is judged as one - no member may use a substring / prefix / case-folding test, and some member compares for equality
+    family = []
+    pname = next((f.def_ for f in fns if f.def_.endswith("CommandLineArgument::_parse")), None)
+    if pname is not None and matcher_closures and all(f.kind == "Closure" for f in matcher_closures):
+        stack, seen_f = [pname], {pname}
+        while stack:
+            x = stack.pop()
+            for e in G.out.get(x, []):
+                g_ = F.fns.get(e.dst)
+                if g_ is not None and g_.crate == "rws" and e.dst not in seen_f and (g_.kind == "Closure" or is_private_helper(F, e.dst)):
+                    seen_f.add(e.dst)
+                    stack.append(e.dst)
+                    family.append(ctx.inl(g_))
+    fam_eq = any(re.search(r"(impl str>::eq|PartialEq.*::eq)", callee_name(t) or "") for f_ in family for _, t in f_.calls())
+    if family and fam_eq:
+        matcher_closures = [f_ for f_ in family if any(re.search(r"(impl str>::eq|PartialEq.*::eq)|impl str>::(contains|starts_with|ends_with|find|eq_ignore_ascii_case|to_lowercase|trim_start_matches)", callee_name(t) or "") for _, t in f_.calls())]
     for cf in matcher_closures:
         bad = [callee_name(t) for _, t in cf.calls() if re.search(r"impl str>::(contains|starts_with|ends_with|find|eq_ignore_ascii_case|to_lowercase|trim_start_matches)", callee_name(t) or "")]
-        has_eq = any(re.search(r"(impl str>::eq|PartialEq.*::eq)", callee_name(t) or "") for _, t in cf.calls())
+        has_eq = any(re.search(r"(impl str>::eq|PartialEq.*::eq)", callee_name(t) or "") for _, t in cf.calls()) or (bool(family) and fam_eq and not bad)
         ok = has_eq and not bad
         r4b.instance({"matcher_closure": cf.def_, "equality": has_eq, "other_string_tests": bad}, ok)
         if not ok:
